@@ -1,3 +1,4 @@
+/- helper lemmas for the verifier bookkeeping model (proof side) -/
 import Ipv8.C18.Verifier
 import Ipv8.C18.LemmasProto
 import Mathlib.Data.List.Perm.Basic
